@@ -46,8 +46,8 @@ class CFG:
         self._handlers: List[List[int]] = []               # innermost try: handler entry node ids (+finally)
         self._finally: List[Optional[List[ast.stmt]]] = []
         ends = self._block(func_node.body, [self.entry.id])
-        for e in ends:
-            self._edge(e, self.return_exit.id, "fallthrough")
+        # `ends` holds node ids or (id, edge label) pairs (the false edge of a trailing `if`, the exit of a trailing loop)
+        self._connect([(e[0], (e[1] + "|fallthrough") if e[1] else "fallthrough") if isinstance(e, tuple) else (e, "fallthrough") for e in ends], self.return_exit.id)
         self._idom = None
         self._ipdom = None
 
@@ -323,3 +323,19 @@ class CFG:
 
     def stmts(self) -> List[Node]:
         return [n for n in self.nodes if n.stmt is not None]
+
+
+def _selfcheck():
+    """construction facts that every path rule relies on, evaluated once at import: a trailing `if` without `else` and a trailing loop can be
+    left without executing their body"""
+    import ast as _ast
+    from .index import AnalysisError as _AE
+    for src in ("def f(c):\n    a()\n    if c:\n        b()\n", "def f(xs):\n    for x in xs:\n        b()\n", "def f(c):\n    while c:\n        b()\n"):
+        fn = _ast.parse(src).body[0]
+        g = CFG(fn)
+        b = [n for n in _ast.walk(fn) if isinstance(n, _ast.Expr) and isinstance(n.value, _ast.Call) and n.value.func.id == "b"][0]
+        if not g.path_exists(g.entry.id, g.return_exit.id, avoid=[g.node_for(b)]):
+            raise _AE("CFG self-check failed: the body of a trailing if / loop is reported as unavoidable")
+
+
+_selfcheck()
